@@ -305,7 +305,7 @@ PROPS["C09"] = dict(
     assumptions=["documented exceptions are excluded by construction: UintN(0), nil interface / callback arguments, permutation and KMAC sizes above 2^20, PRG positions beyond the documented 256 GiB stream, hashers whose ComputeHash returns fewer bytes than Size() claims, the no_cgo build",
                  "Go's -asan does not see over-reads that stay inside a slice's capacity; memory safety of the C layer on arbitrary bytes is the subject of the libFuzzer targets in cfuzz/ (when built) and of the semantic oracles of C05/C06"],
     jobs=[J("TestC09_Calls", 3000, 40000, shards=12, journal=True), J("TestC09_Regressions", 1, 1, journal=True), J("TestC09_DKGNetwork", 500, 6000, shards=6, journal=True),
-          J("TestC09_Calls", 500, 3000, shards=4, journal=True, mode="asan"),
+          J("TestC09_Calls", 500, 3000, shards=4, journal=True, mode="asan"), J("TestC09_DKGNetwork", 60, 600, shards=2, journal=True, mode="asan"),
           J("cfuzz:SUM_VECTOR", 30000, 240, kind="cfuzz", target="SUM_VECTOR"),
           J("cfuzz:LAGRANGE", 40000, 240, kind="cfuzz", target="LAGRANGE"),
           J("cfuzz:G2_VECTOR", 30000, 240, kind="cfuzz", target="G2_VECTOR"),
